@@ -22,6 +22,9 @@ func ContentFor(name string, help hctx.HelperContext) {
 		return
 	}
 
+	// contentOf runs the block itself when it can, so that a break or
+	// continue in the block reaches the loop around the contentOf call
+	help.Set("contentFor:"+name+":block", help)
 	help.Set("contentFor:"+name, func(data hctx.Map) (template.HTML, error) {
 		hctx := help.New()
 		for k, v := range data {
